@@ -6,6 +6,7 @@ import (
 	"fmt"
 	"os"
 	"path/filepath"
+	"strings"
 	"sync"
 	"time"
 )
@@ -18,6 +19,23 @@ type tapeRunner struct {
 	n                           int
 	mu                          sync.Mutex
 	tries                       int // executions per candidate before it counts as "does not fail" (1 unless the tree under test proved nondeterministic)
+	seed                        uint64
+	prelude                     []uint64 // run indices executed in the same process before the candidate
+}
+
+func joinIdx(v []uint64) string {
+	parts := make([]string, len(v))
+	for i, x := range v {
+		parts[i] = fmt.Sprint(x)
+	}
+	return strings.Join(parts, ",")
+}
+
+func preludeArgs(seed uint64, prelude []uint64) []string {
+	if len(prelude) == 0 {
+		return nil
+	}
+	return []string{"-seed", fmt.Sprint(seed), "-prelude", joinIdx(prelude)}
 }
 
 // runFor executes a tape until it fails with the wanted class, at most tr.tries times.
@@ -40,7 +58,8 @@ func (tr *tapeRunner) run(tape []uint64) childResult {
 	b, _ := json.Marshal(tape)
 	os.WriteFile(name, b, 0o644)
 	defer os.Remove(name)
-	return execChild(tr.exe, []string{"exec", "-prop", tr.prop, "-tier", tr.tier, "-tape", name, "-known", tr.known}, 120*time.Second)
+	args := []string{"exec", "-prop", tr.prop, "-tier", tr.tier, "-tape", name, "-known", tr.known}
+	return execChild(tr.exe, append(args, preludeArgs(tr.seed, tr.prelude)...), 120*time.Second+time.Duration(len(tr.prelude))*20*time.Millisecond)
 }
 
 func classOf(prop string, cr childResult) string {
@@ -207,18 +226,47 @@ const (
 // handleViolation confirms run `index` in a fresh process, minimises it and writes the replay
 // file.  It returns the replay path and exitViolation, or exitInfra if the violation does not
 // reproduce (which is a defect of the harness, never reported as a VIOLATION).
-func handleViolation(exe string, sc *scenario, tier string, seed, index uint64, class, replayDir, known string) (string, int) {
+func handleViolation(exe string, sc *scenario, tier string, seed, index uint64, class, replayDir, known string, proc procInfo) (string, int) {
 	os.MkdirAll(replayDir, 0o755)
-	tr := &tapeRunner{exe: exe, prop: sc.Prop, tier: tier, known: known, dir: replayDir}
-	execFirst := func() childResult {
-		return execChild(exe, []string{"exec", "-prop", sc.Prop, "-tier", tier, "-seed", fmt.Sprint(seed), "-i", fmt.Sprint(index), "-known", known}, 300*time.Second)
+	tr := &tapeRunner{exe: exe, prop: sc.Prop, tier: tier, known: known, dir: replayDir, seed: seed}
+	var prelude []uint64
+	execWith := func(pre []uint64) childResult {
+		args := []string{"exec", "-prop", sc.Prop, "-tier", tier, "-seed", fmt.Sprint(seed), "-i", fmt.Sprint(index), "-known", known}
+		if len(pre) > 0 {
+			args = append(args, "-prelude", joinIdx(pre))
+		}
+		return execChild(exe, args, 300*time.Second+time.Duration(len(pre))*20*time.Millisecond)
 	}
+	execFirst := func() childResult { return execWith(prelude) }
 	first := execFirst()
 	if first.Infra != "" {
 		fmt.Fprintln(os.Stderr, "INFRASTRUCTURE ERROR while confirming run", index, ":", first.Infra)
 		return "", exitInfra
 	}
 	got := classOf(sc.Prop, first)
+	if got == "" {
+		// Alone in a fresh process the run is clean.  In the batch it was not alone: the same
+		// worker process had executed earlier runs, and a tree that keeps state across calls
+		// (a learned table, a memo, a lazily built structure) carries it from run to run.  Replay
+		// the runs that process had executed before, then minimise that prelude.
+		if full := proc.prelude(index); len(full) > 0 {
+			if cr := execWith(full); cr.Infra == "" && classOf(sc.Prop, cr) != "" {
+				want := classOf(sc.Prop, cr)
+				prelude = minimisePrelude(full, func(p []uint64) bool {
+					r := execWith(p)
+					return r.Infra == "" && classOf(sc.Prop, r) == want
+				})
+				first = execFirst()
+				if first.Infra != "" {
+					fmt.Fprintln(os.Stderr, "INFRASTRUCTURE ERROR while confirming run", index, ":", first.Infra)
+					return "", exitInfra
+				}
+				got = classOf(sc.Prop, first)
+				tr.prelude = prelude
+				fmt.Printf("run %d violates only after earlier runs in the same process (state kept by the library across calls): prelude minimised from %d to %d runs\n", index, len(full), len(prelude))
+			}
+		}
+	}
 	// The simulator's own determinism is established by the self-test on the unchanged tree.  If a
 	// run nevertheless does not repeat, the tree under test consults a source of nondeterminism
 	// the simulator does not own (the instrumenter already takes over map iteration order, locks,
@@ -256,7 +304,7 @@ func handleViolation(exe string, sc *scenario, tier string, seed, index uint64, 
 			tape[i] = r.next()
 		}
 	}
-	rf := replayFile{Property: sc.Prop, Tier: tier, Seed: seed, Index: index, Flaky: flaky}
+	rf := replayFile{Property: sc.Prop, Tier: tier, Seed: seed, Index: index, Flaky: flaky, Prelude: prelude}
 	usable := false
 	if len(tape) > 0 {
 		chk := tr.runFor(tape, class)
@@ -327,10 +375,16 @@ func replayOnce(exe, path, known string) childResult {
 	if err := json.Unmarshal(b, &rf); err != nil {
 		return childResult{Infra: "replay file: " + err.Error()}
 	}
+	to := 300*time.Second + time.Duration(len(rf.Prelude))*20*time.Millisecond
 	if len(rf.Tape) > 0 {
-		return execChild(exe, []string{"exec", "-prop", rf.Property, "-tier", rf.Tier, "-tape", path, "-known", known}, 300*time.Second)
+		args := []string{"exec", "-prop", rf.Property, "-tier", rf.Tier, "-tape", path, "-known", known}
+		return execChild(exe, append(args, preludeArgs(rf.Seed, rf.Prelude)...), to)
 	}
-	return execChild(exe, []string{"exec", "-prop", rf.Property, "-tier", rf.Tier, "-seed", fmt.Sprint(rf.Seed), "-i", fmt.Sprint(rf.Index), "-known", known}, 300*time.Second)
+	args := []string{"exec", "-prop", rf.Property, "-tier", rf.Tier, "-seed", fmt.Sprint(rf.Seed), "-i", fmt.Sprint(rf.Index), "-known", known}
+	if len(rf.Prelude) > 0 {
+		args = append(args, "-prelude", joinIdx(rf.Prelude))
+	}
+	return execChild(exe, args, to)
 }
 
 func cmdReplay(args []string) int {
@@ -369,4 +423,40 @@ func cmdReplay(args []string) int {
 	fmt.Printf("replayed class=%s (recorded %s): %s\n", got, rf.Violation.Class, head(tmp.Violation.Detail, 1200))
 	fmt.Printf("VIOLATION property=%s replay=%s\n", rf.Property, *file)
 	return exitViolation
+}
+
+// minimisePrelude shrinks the list of earlier runs that must be executed in the same process
+// for the violation to appear: shortest failing suffix first (doubling), then removal of
+// chunks of decreasing size (ddmin without the complement step).  At most ~120 executions.
+func minimisePrelude(full []uint64, fails func([]uint64) bool) []uint64 {
+	best := full
+	budget := 120
+	try := func(p []uint64) bool {
+		if budget <= 0 {
+			return false
+		}
+		budget--
+		return fails(p)
+	}
+	for l := 1; l < len(full); l *= 2 {
+		if cand := full[len(full)-l:]; try(cand) {
+			best = cand
+			break
+		}
+	}
+	for chunk := (len(best) + 1) / 2; chunk >= 1 && budget > 0; chunk /= 2 {
+		for i := 0; i < len(best) && budget > 0; {
+			end := min(i+chunk, len(best))
+			cand := append(append([]uint64(nil), best[:i]...), best[end:]...)
+			if len(cand) > 0 && try(cand) {
+				best = cand
+			} else {
+				i = end
+			}
+		}
+		if chunk == 1 {
+			break
+		}
+	}
+	return best
 }
